@@ -236,6 +236,25 @@ class ExprCanon(ast.NodeTransformer):
                 vals.extend(v.values)
             else:
                 vals.append(v)
+        # constant operands: `True or X` -> True, `False or X` -> X, `True and X` -> X, `False and X` -> False
+        # (the constant is a literal bool; a surviving single operand is returned as is: the value of `c or X` with c
+        # a false literal is X itself)
+        unit = isinstance(node.op, ast.And)
+        folded = []
+        for k, v in enumerate(vals):
+            if isinstance(v, ast.Constant) and isinstance(v.value, bool):
+                if v.value is unit:
+                    if k == len(vals) - 1 and folded and not all(_boolean_typed(x) for x in folded):
+                        folded.append(v)  # `X and True` has the value True, not X, unless X is a bool anyway
+                    continue
+                folded.append(v)
+                break  # everything after an absorbing constant is never evaluated
+            folded.append(v)
+        if not folded:
+            return _loc(ast.Constant(value=unit), node)
+        if len(folded) == 1:
+            return folded[0]
+        vals = folded
         node.values = vals
         if isinstance(node.op, ast.Or):
             # isinstance(a, X) or isinstance(a, Y) -> isinstance(a, (X, Y))
@@ -342,6 +361,26 @@ class ExprCanon(ast.NodeTransformer):
         if (consumer or lazy_ok) and len(node.args) == 1 and not node.keywords and isinstance(node.args[0], ast.ListComp):
             lc = node.args[0]
             node.args = [_loc(ast.GeneratorExp(elt=lc.elt, generators=lc.generators), lc)]
+        # any(E(v) for v in <literal rows>) -> E(r1) or E(r2) ..  (all -> and); E boolean-typed so the value is the same
+        if isinstance(f0, ast.Name) and f0.id in ("any", "all") and len(node.args) == 1 and not node.keywords and isinstance(node.args[0], ast.GeneratorExp) and len(node.args[0].generators) == 1:
+            ge = node.args[0]
+            g = ge.generators[0]
+            if isinstance(g.iter, (ast.Tuple, ast.List)) and 1 <= len(g.iter.elts) <= 24 and not g.is_async:
+                tgt = g.target
+                names = [tgt.id] if isinstance(tgt, ast.Name) else ([e.id for e in tgt.elts] if isinstance(tgt, ast.Tuple) and all(isinstance(e, ast.Name) for e in tgt.elts) else None)
+                rows = None
+                if names is not None and len(names) == 1 and isinstance(tgt, ast.Name):
+                    rows = [[e] for e in g.iter.elts]
+                elif names is not None:
+                    rows = [list(e.elts) if isinstance(e, (ast.Tuple, ast.List)) and len(e.elts) == len(names) else None for e in g.iter.elts]
+                elt = ge.elt
+                for c in g.ifs:
+                    # all(E for v in T if c)  ==  all(not c or E);  any(E .. if c)  ==  any(c and E)
+                    elt = _loc(ast.BoolOp(op=ast.And(), values=[c, elt]), node) if f0.id == "any" else _loc(ast.BoolOp(op=ast.Or(), values=[negate(copy.deepcopy(c)), elt]), node)
+                if rows is not None and all(r is not None and all(_atomic_row(x) or (isinstance(x, (ast.Tuple, ast.List)) and all(_atomic_row(y) for y in x.elts)) for x in r) for r in rows) and _boolean_typed(elt) and not any(isinstance(n, (ast.Lambda, ast.NamedExpr)) for n in ast.walk(elt)) and not any(isinstance(n, ast.Name) and n.id in names and isinstance(n.ctx, ast.Store) for n in ast.walk(elt)):
+                    parts = [_SubstNames(dict(zip(names, r))).visit(copy.deepcopy(elt)) for r in rows]
+                    new = parts[0] if len(parts) == 1 else _loc(ast.BoolOp(op=ast.Or() if f0.id == "any" else ast.And(), values=parts), node)
+                    return self.visit(ast.fix_missing_locations(new))
         # struct.unpack(..) -> unpack(..);  Struct(F).unpack(X) -> unpack(F, X)  (same for pack / unpack_from / pack_into / calcsize)
         if isinstance(f0, ast.Attribute) and f0.attr in ("pack", "unpack", "unpack_from", "pack_into", "iter_unpack"):
             v = f0.value
@@ -620,6 +659,130 @@ def _mentions(node, name):
     return any(isinstance(n, ast.Name) and n.id == name for n in ast.walk(node))
 
 
+def _atomic_row(e):
+    if isinstance(e, ast.Constant):
+        return True
+    if isinstance(e, ast.Name):
+        return True
+    if isinstance(e, ast.Attribute):
+        return _atomic_row(e.value)
+    if isinstance(e, ast.UnaryOp) and isinstance(e.op, ast.USub) and isinstance(e.operand, ast.Constant):
+        return True
+    return False
+
+
+class _SubstNames(ast.NodeTransformer):
+    def __init__(self, m):
+        self.m = m
+
+    def visit_Name(self, n):
+        if n.id in self.m and isinstance(n.ctx, ast.Load):
+            return copy.deepcopy(self.m[n.id])
+        return n
+
+
+def _unroll_literal_loops(stmts):
+    """a `for` over a short literal tuple / list of constants, names or rows of them is its body once per row, the
+    loop variables replaced by the row:
+        for v in (a, b): S            ->  S[v:=a]; S[v:=b]; <else>
+        for v in (a, b): if T: S; break   (+ else: E)   ->  if T[v:=a]: S[v:=a] elif T[v:=b]: S[v:=b] else: E
+    Conditions: the loop variables are not stored, deleted or captured in the body and not read after the loop; no
+    `continue`; `break` only in the second form."""
+    out = []
+    for idx, s in enumerate(stmts):
+        new = _unroll_one(s, stmts[idx + 1:]) if isinstance(s, ast.For) else None
+        if new is None:
+            out.append(s)
+        else:
+            out.extend(new)
+    return out
+
+
+def _unroll_one(s, rest):
+    it = s.iter
+    if not isinstance(it, (ast.Tuple, ast.List)) or not (1 <= len(it.elts) <= 24):
+        return None
+    tgt = s.target
+    if isinstance(tgt, ast.Name):
+        names = [tgt.id]
+        rows = [[e] for e in it.elts]
+        if not all(_atomic_row(e) for e in it.elts):
+            return None
+    elif isinstance(tgt, ast.Tuple) and all(isinstance(e, ast.Name) for e in tgt.elts):
+        names = [e.id for e in tgt.elts]
+        rows = []
+        for e in it.elts:
+            if not (isinstance(e, (ast.Tuple, ast.List)) and len(e.elts) == len(names) and all(_atomic_row(x) for x in e.elts)):
+                return None
+            rows.append(list(e.elts))
+    else:
+        return None
+    if len(set(names)) != len(names):
+        return None
+    inside = [n for st in s.body for n in ast.walk(st)]
+    if any(isinstance(n, ast.Name) and n.id in names and isinstance(n.ctx, (ast.Store, ast.Del)) for n in inside):
+        return None
+    if any(isinstance(n, (ast.FunctionDef, ast.AsyncFunctionDef, ast.Lambda, ast.ClassDef)) for n in inside):
+        return None
+    # the loop variables are dead afterwards
+    if any(isinstance(n, ast.Name) and n.id in names for st in list(rest) + list(s.orelse) for n in ast.walk(st)):
+        return None
+    # names occurring in the rows must not be rebound by the body (a later row would see the new value either way,
+    # but the substituted test of an earlier copy must not)
+    row_names = {n.id for r in rows for e in r for n in ast.walk(e) if isinstance(n, ast.Name)}
+    if any(isinstance(n, ast.Name) and n.id in row_names and isinstance(n.ctx, (ast.Store, ast.Del)) for n in inside):
+        return None
+
+    def own(kind):
+        """Break / Continue statements belonging to this loop"""
+        found = []
+
+        def go(stmts):
+            for st in stmts:
+                if isinstance(st, kind):
+                    found.append(st)
+                elif isinstance(st, (ast.For, ast.AsyncFor, ast.While)):
+                    go(st.orelse)
+                elif isinstance(st, (ast.FunctionDef, ast.AsyncFunctionDef, ast.ClassDef)):
+                    continue
+                else:
+                    for f in ("body", "orelse", "finalbody"):
+                        sub = getattr(st, f, None)
+                        if isinstance(sub, list) and sub and isinstance(sub[0], ast.stmt):
+                            go(sub)
+                    for h in getattr(st, "handlers", []) or []:
+                        go(h.body)
+
+        go(s.body)
+        return found
+
+    if own(ast.Continue):
+        return None
+    breaks = own(ast.Break)
+
+    def inst(stmts, row):
+        m = dict(zip(names, row))
+        return [_SubstNames(m).visit(copy.deepcopy(st)) for st in stmts]
+
+    if not breaks:
+        out = []
+        for row in rows:
+            out.extend(inst(s.body, row))
+        out.extend(s.orelse)
+        out = [_Tests().visit(ExprCanon().visit(ast.fix_missing_locations(st))) for st in out]
+        return out or [_loc(ast.Pass(), s)]
+    # second form: the body is one `if` that ends with the only break
+    if len(breaks) == 1 and len(s.body) == 1 and isinstance(s.body[0], ast.If) and not s.body[0].orelse and s.body[0].body and s.body[0].body[-1] is breaks[0]:
+        chain = list(s.orelse)
+        for row in reversed(rows):
+            t = inst([ast.Expr(value=s.body[0].test)], row)[0].value
+            b = inst(s.body[0].body[:-1], row) or [_loc(ast.Pass(), s)]
+            chain = [_loc(ast.If(test=t, body=b, orelse=chain), s)]
+        chain = [_Tests().visit(ExprCanon().visit(ast.fix_missing_locations(st))) for st in chain]
+        return chain
+    return None
+
+
 def _loops_to_comprehensions(stmts):
     """`X = []` / `{}` / `set()` followed (possibly after statements that do not mention X) by a loop whose whole
     body appends to X (optionally under one `if`; for a dict optionally `k = E1; X[k] = E2`)
@@ -751,6 +914,9 @@ def canon_block(stmts):
     stmts = _fold_dict_stores(stmts)
     stmts = _fold_list_appends(stmts)
     stmts = [_merge_arms(_table_dispatch(s)) if isinstance(s, ast.If) else s for s in stmts]
+    stmts = _unroll_literal_loops(stmts)
+    if any(isinstance(x, ast.If) and isinstance(x.test, ast.Constant) for x in stmts):
+        stmts = _fold_constant_ifs(stmts)
     stmts = _loops_to_comprehensions(stmts)
     # from the end: `if c: A(exits)` + rest -> if c: A else: rest
     res = []
